@@ -11,6 +11,7 @@ import (
 	"github.com/plgd-dev/go-coap/v3/message"
 	"github.com/plgd-dev/go-coap/v3/message/codes"
 	"github.com/plgd-dev/go-coap/v3/message/pool"
+	"github.com/plgd-dev/go-coap/v3/mux"
 	"github.com/plgd-dev/go-coap/v3/net/responsewriter"
 	"github.com/plgd-dev/go-coap/v3/options"
 	"github.com/plgd-dev/go-coap/v3/tcp"
@@ -45,6 +46,10 @@ type e2eReq struct {
 type e2eScenario struct {
 	Transport string   `json:"transport"` // udp | tcp
 	Reqs      []e2eReq `json:"reqs"`
+	// Handler: "" the harness's handler (answers the code the request asks for); "default" no handler
+	// option at all (the endpoint's built-in handler answers requests with 4.04); "mux" an empty
+	// router (its default handler answers 4.04)
+	Handler string `json:"handler,omitempty"`
 }
 
 var testingT *testing.T
@@ -72,28 +77,42 @@ func execE2E(r *evid.Run) func(sc e2eScenario) *evid.Failure {
 			}
 			if sc.Transport == "udp" {
 				link := memnet.NewPacketLink(memnet.LinkCfg{LatencyMs: 1})
-				cc := endpoints.UDP(link.A, []udp.Option{
+				uopts := []udp.Option{
 					options.WithMessagePool(pool.New(8, 2048)), options.WithPeriodicRunner(tk.Runner()),
 					options.WithBlockwise(false, 6, time.Second),
-					options.WithHandlerFunc(udpClient.HandlerFunc(func(rw *responsewriter.ResponseWriter[*udpClient.Conn], rq *pool.Message) {
+				}
+				switch sc.Handler {
+				case "default":
+				case "mux":
+					uopts = append(uopts, options.WithMux(mux.NewRouter()))
+				default:
+					uopts = append(uopts, options.WithHandlerFunc(udpClient.HandlerFunc(func(rw *responsewriter.ResponseWriter[*udpClient.Conn], rq *pool.Message) {
 						handle(func(c codes.Code) error {
 							return rw.SetResponse(c, message.TextPlain, bytes.NewReader([]byte("x")), message.Option{ID: message.ETag, Value: []byte{0xE2, 0x02}})
 						}, rq)
-					})),
-				}...)
+					})))
+				}
+				cc := endpoints.UDP(link.A, uopts...)
 				w = wire.UDP(link)
 				closeConn = func() { _ = cc.Close() }
 			} else {
 				link := memnet.NewStreamLink(memnet.StreamCfg{})
-				cc, err := endpoints.TCP(link.A, []tcp.Option{
+				topts := []tcp.Option{
 					options.WithMessagePool(pool.New(8, 2048)), options.WithPeriodicRunner(tk.Runner()),
 					options.WithBlockwise(false, 6, time.Second), options.WithCloseSocket(),
-					options.WithHandlerFunc(tcpClient.HandlerFunc(func(rw *responsewriter.ResponseWriter[*tcpClient.Conn], rq *pool.Message) {
+				}
+				switch sc.Handler {
+				case "default":
+				case "mux":
+					topts = append(topts, options.WithMux(mux.NewRouter()))
+				default:
+					topts = append(topts, options.WithHandlerFunc(tcpClient.HandlerFunc(func(rw *responsewriter.ResponseWriter[*tcpClient.Conn], rq *pool.Message) {
 						handle(func(c codes.Code) error {
 							return rw.SetResponse(c, message.TextPlain, bytes.NewReader([]byte("x")), message.Option{ID: message.ETag, Value: []byte{0xE2, 0x02}})
 						}, rq)
-					})),
-				}...)
+					})))
+				}
+				cc, err := endpoints.TCP(link.A, topts...)
 				if err != nil {
 					panic(err)
 				}
@@ -126,11 +145,21 @@ func execE2E(r *evid.Run) func(sc e2eScenario) *evid.Failure {
 				if q.ValueLen == 1 {
 					effective = q.Value & 0xff
 				}
-				suppressed := specSuppressed(effective, q.Code)
+				wantCode, wantPayload := q.Code, "x"
+				if sc.Handler != "" {
+					wantCode, wantPayload = int(codes.NotFound), ""
+				}
+				suppressed := specSuppressed(effective, wantCode)
 				mu.Lock()
 				serr, ran := setResponseErr[i]
 				mu.Unlock()
-				desc := fmt.Sprintf("request %d (%s, con=%v, No-Response len %d value %d, handler answers %d.%02d)", i, sc.Transport, q.Con, q.ValueLen, q.Value, q.Code>>5, q.Code&31)
+				desc := fmt.Sprintf("request %d (%s, con=%v, No-Response len %d value %d, handler %q answers %d.%02d)", i, sc.Transport, q.Con, q.ValueLen, q.Value, sc.Handler, wantCode>>5, wantCode&31)
+				if sc.Handler != "" {
+					ran, serr = true, nil
+					if suppressed {
+						serr = fmt.Errorf("suppressed")
+					}
+				}
 				if !ran {
 					fail = evid.Failf("e2e/handler-not-run", sc, "%s: the handler did not run", desc)
 					return
@@ -182,7 +211,7 @@ func execE2E(r *evid.Run) func(sc e2eScenario) *evid.Failure {
 						return
 					}
 					rp := responses[0]
-					if rp.Code != q.Code || !bytes.Equal(rp.Token, m.Token) || string(rp.Payload) != "x" {
+					if rp.Code != wantCode || !bytes.Equal(rp.Token, m.Token) || string(rp.Payload) != wantPayload {
 						fail = evid.Failf("e2e/wrong-response", sc, "%s: response on the wire %+v", desc, rp)
 						return
 					}
@@ -205,9 +234,12 @@ func execE2E(r *evid.Run) func(sc e2eScenario) *evid.Failure {
 			for _, q := range sc.Reqs {
 				key := ""
 				if q.ValueLen == 1 && q.Value != 0 {
-					key = fmt.Sprint(sc.Transport, q.Con, q.Value, q.Code)
+					key = fmt.Sprint(sc.Transport, q.Con, q.Value, q.Code, sc.Handler)
 				}
 				cls := []string{"e2e/" + sc.Transport}
+				if sc.Handler != "" {
+					cls = append(cls, "e2e/built-in-handler-"+sc.Handler)
+				}
 				if len(q.Extra) > 0 && q.ValueLen >= 0 {
 					cls = append(cls, "e2e/option-behind-no-response")
 				}
@@ -220,6 +252,7 @@ func execE2E(r *evid.Run) func(sc e2eScenario) *evid.Failure {
 
 func genE2E(t *rapid.T) e2eScenario {
 	sc := e2eScenario{Transport: rapid.SampledFrom([]string{"udp", "tcp"}).Draw(t, "transport")}
+	sc.Handler = rapid.SampledFrom([]string{"", "", "", "default", "mux"}).Draw(t, "handler")
 	n := rapid.IntRange(1, 6).Draw(t, "n")
 	for i := 0; i < n; i++ {
 		q := e2eReq{
